@@ -14,6 +14,7 @@ CONSTANTS
   FixAwait = TRUE
   FixPublish = TRUE
   FixInvMax = FALSE
+  AnyTakesAwaiters = FALSE
   SeqInv = FALSE
   MaxOps = 0
 VIEW View
